@@ -132,6 +132,31 @@ def long_comment(rng):
     return "--[" + "=" * lvl + "[" + body + (close if rng.random() < 0.93 else "")
 
 
+def doc_long_comment(rng, script, indent=""):
+    """a long-bracket documentation comment of 1..3 lines, level 0-2, closed; styles `--[[ t ]]`, `--[[\n t\n]]`, `--[[\n t\n--]]`
+    -> (source text, content as the lexer keeps it: first line break dropped, closing "\n--" trimmed)"""
+    lvl = rng.choice([0, 0, 0, 1, 2])
+    close = "]" + "=" * lvl + "]"
+    n = rng.choice([1, 1, 2, 3])
+    ls = []
+    for _ in range(n):
+        t = comment_text(rng, script).replace(close, "").replace("]", ")")
+        ls.append(rng.choice(["", " ", "  ", "- ", "-* "]) + t)
+    style = rng.random()
+    if style < 0.5:
+        body = "\n".join(ls) + rng.choice(["", " "])
+    elif style < 0.75:
+        body = "\n" + "\n".join(ls) + "\n" + indent
+    else:
+        body = "\n" + "\n".join(ls) + "\n" + "--"          # closing line `--]]`
+    while body.endswith("]") or (lvl and body.endswith("=")):
+        body = body[:-1]
+    content = body[1:] if body.startswith("\n") else body
+    if content.endswith("\n--"):
+        content = content[:-3]
+    return "--[" + "=" * lvl + "[" + body + close, content
+
+
 CODE_BITS = ["local x = 1", "x = x + 1", "print(x)", "local s = \"a--b\"", "local t = {1, 2}", "f(a, b)", "do", "end",
              "if x then", "return", "local l = [[long\nstring -- no comment]]", "y = 'it''s'", "::lab::", "goto lab",
              "function f(a, b)", "local function g(...)", "while true do", "break", "x = -- mid\n 2", "a.b.c = nil",
@@ -189,7 +214,9 @@ def lua_with_comments(rng):
 
 def gen_cmap(rng, tier):
     n = {"quick": 2500, "thorough": 100000, "search": 4000}[tier]
-    out = ["-", hexs(b"-- a\n-- b\nlocal x = 1 -- t\n"), hexs(b"--\n-- text\nlocal a = 1"), hexs(b"x = 1 --[[ a\n b ]] -- c\nlocal y")]
+    out = ["-", hexs(b"-- a\n-- b\nlocal x = 1 -- t\n"), hexs(b"--\n-- text\nlocal a = 1"), hexs(b"x = 1 --[[ a\n b ]] -- c\nlocal y"),
+           hexs(b"-- s1\n--[[ doc\n two ]]\nlocal a = 1 --[[ t ]]\n--[==[\n x\n--]==]\n-- y\nlocal z = [[q\nr]] -- after\n"),
+           hexs(b"--[[ a ]] --[[ b ]] local x --[[ c ]] --[=[ d\n]=] y = 1 --[[ unclosed\n")]
     for k in range(n):
         m = rng.random()
         if m < 0.6:
@@ -248,7 +275,7 @@ def string_literal(rng, script):
 def hover_file(rng):
     """-> (source text, [(line, col_lo, col_hi)] hover targets, [announced documentation texts])"""
     script = rng.choice(["ascii", "ascii", "cjk", "astral", "mix", "two"])
-    lines, targets, names, docs = [], [], [], []
+    lines, targets, names, docs, long_docs = [], [], [], [], []
     ndecl = rng.choice([1, 2, 3, 4, 6])
     nl_style = rng.random()
     for d in range(ndecl):
@@ -261,6 +288,16 @@ def hover_file(rng):
                 lead.append(indent + short_comment(rng, script))
         elif k < 0.78:
             lead.append(indent + long_comment(rng).replace("\r\n", "\n"))
+        elif k < 0.92:
+            # documentation in a long-bracket comment (1..3 lines, levels 0-2), alone or mixed with `--` lines above /
+            # below it: a long-bracket comment is a block of its own (fix C13-long-comment-doc)
+            for _ in range(rng.choice([0, 0, 1, 2])):
+                lead.append(indent + short_comment(rng, script))
+            src_l, content = doc_long_comment(rng, script, indent)
+            lead.append(indent + src_l + rng.choice(["", "", " ", "\t"]))
+            long_docs.append(content)
+            for _ in range(rng.choice([0, 0, 0, 1])):
+                lead.append(indent + short_comment(rng, script))
         if lead and rng.random() < 0.12:
             lead.append("")                                   # separated by a blank line
         if lead and rng.random() < 0.06:
@@ -277,9 +314,15 @@ def hover_file(rng):
         params = rng.choice([[], ["p"], ["p", "q"], ["self", "n"]])
         va = rng.random() < 0.25
         plist = ", ".join(params + (["..."] if va else []))
-        body = rng.choice([" ", " print(%s) " % (params[0] if params else "1"), " print(1) print(2) "])
+        body = rng.choice([" ", " print(%s) " % (params[0] if params else "1"), " print(1) print(2) ",
+                           "\n  print(1)\n", "\n  print(%s)\n  print(2)\n" % (params[0] if params else "1")])
         val = rng.choice([str(rng.choice([0, 1, 7, 42, 65536, 2 ** 40])), "0x%x" % rng.randrange(1 << 20), string_literal(rng, script),
                           string_literal(rng, script), "true", "false", "nil"])
+        if rng.random() < 0.12:
+            # a multi-line initialiser: the statement (and a trailing comment behind it) ends on a later line than the
+            # identifier's - that comment is NOT the declaration's (reading of "the trailing comment on its line")
+            val = "[" + "=" * rng.choice([0, 0, 1]) + "[" + rng.choice(["a\nb", "\nfirst\nsecond", "x\n\ny ", "1\n2\n3"])
+            val += "]" + val[1:val.index("[", 1)] + "]"
         col0 = len(indent)
         if kind == "local":
             has_val = rng.random() < 0.85
@@ -323,7 +366,9 @@ def hover_file(rng):
         if text.endswith("-") and trail.startswith("-"):
             trail = " " + trail
         ln = len(lines)
-        lines.append(indent + text + trail)
+        if "\n" in text and k < 0.47 and rng.random() < 0.5:
+            text = text.replace("\n", " " + short_comment(rng, script) + "\n", 1)   # a comment on the identifier's line, mid-statement
+        lines += (indent + text + trail).split("\n")
         for (c, nm) in spots:
             targets.append((ln, c, c + len(nm)))
             names.append(nm)
@@ -331,6 +376,8 @@ def hover_file(rng):
         cands = []
         if trail.lstrip(" \t").startswith("--") and not trail.lstrip(" \t").startswith("--["):
             cands.append([trail.lstrip(" \t")[2:]])
+        if " --" in lines[ln]:
+            cands.append([lines[ln][lines[ln].index(" --") + 3:]])
         blk = []
         for l in reversed(lines[:ln]):
             if l.lstrip(" \t").startswith("--") and not l.lstrip(" \t").startswith("--["):
@@ -345,6 +392,14 @@ def hover_file(rng):
             cands.append(c)
         for c in cands:
             docs.append("".join("  \n" + py_hover_line(x) for x in c))
+        for c in long_docs:
+            docs.append("".join("  \n" + py_hover_line(x) for x in c.split("\n")))
+        if trail.lstrip(" \t").startswith("--[") and "[" in trail.lstrip(" \t")[3:5] + " ":
+            tl = trail.lstrip(" \t")
+            o = tl.index("[", 3) + 1
+            cl = "]" + tl[3:o - 1] + "]"
+            if cl in tl[o:]:
+                docs.append("".join("  \n" + py_hover_line(x) for x in tl[o:tl.index(cl, o)].split("\n")))
         if rng.random() < 0.2:
             lines.append("")
     # uses
@@ -384,6 +439,16 @@ def hover_case(rng, src, targets, docs, k):
 
 
 HOVER_FIXED = [
+    # long-bracket comments as documentation (fix C13-long-comment-doc): one line, several lines, `--]]` closing style, level 2,
+    # mixed with `--` lines (a long-bracket comment is a block of its own), trailing long-bracket comment
+    ("--[[ doc one ]]\nlocal a = 1\n--[[ doc\n two ]]\nlocal b = 2\n--[==[\n doc\n three\n--]==]\nlocal c = 3\n-- s1\n--[[ doc d ]]\nlocal d = 4\n"
+     "--[[ doc e ]]\n-- s2\nlocal e = 5\nlocal f = 6 --[[ tail f ]]\n--[[ sep ]]\n\nlocal g = 7\nprint(a, b, c, d, e, f, g)\n",
+     [(1, 6), (4, 6), (9, 6), (12, 6), (15, 6), (16, 6), (19, 6), (20, 6), (20, 9), (20, 12), (20, 15), (20, 18), (20, 21), (20, 24)]),
+    # a trailing comment behind a multi-line initialiser is not on the identifier's line: no documentation from it;
+    # a comment on the identifier's line (mid-statement) is
+    ("local s = [[a\nb]] -- after string\n-- above t\nlocal t = [==[\nx\ny]==] -- after t\nlocal function f(a,\n  b) print(1)\nend -- after f\n"
+     "local u = [[k -- in string\nl]]\nfunction g() -- on g's line\n  print(2)\nend -- after g\nprint(s, t, f, u, g)\n",
+     [(0, 6), (3, 6), (6, 15), (9, 6), (11, 9), (14, 6), (14, 9), (14, 12), (14, 15), (14, 18)]),
     ("-- leading one\n-- leading two\nlocal a = 1 -- trailing a\n-- block for b\nlocal b = \"str\"\n\n-- separated\n\nlocal c = 3\n"
      "--[[ long lead ]]\nlocal d = true\nlocal e = nil --[[ long trail ]]\n--- triple dash\ng1 = 12\n-- func doc\n"
      "function f1(x, y) end\nlocal function f2(p, ...) end -- tail f2\nprint(a, b, c, d, e, g1, f1, f2)\n",
@@ -447,4 +512,6 @@ def main(tier, seed):
     return vlib.standard_main("C13", LEGS, tier, seed, trusted=TRUSTED,
                               assumptions=["label rendering is modelled for the declaration forms of Model/Hover.v only (top-level local/global with integer/string/boolean/nil/no value, four function forms with plain bodies); other forms, annotation comments (---@), files with syntax errors and hover on the first line of a BOM file are skipped by the hover leg",
                                            "C13_comment_attach_file / _decl / C13_hover_file cover files whose gaps consist of white space, LF/CRLF line breaks and `--text` comments not starting with `[` (boolean class file_gaps <> None; key-disjointness of different gaps is proved there, not assumed) and that the parser reads to the end; gaps with long-bracket comments, `--[x` comments, lone CR / LFCR are covered by correspondence (legs c13.cmap, c13.hover) only",
-                                           "the spec column of leg c13.hover: for a file of file_class the documentation demanded is spec_comment on the declarative table of the file's comment lines (file_table), the statement of C13_comment_attach_file; otherwise spec_attach on the recorded entries, stated only for files whose comments are all `--` line comments (long-bracket comments are never shown: stricter reading of 'comment block')"])
+                                           "long-bracket comments (fix C13-long-comment-doc, variant flag fx of Model/Comments.v; C13_VARIANT=prefix runs the pre-fix model): proved for EVERY file: the deployed lexer differs from the shared model only in the text kept for long-bracket comments (C13_deployed_differs_in_long_text_only) and coincides with it on files with structured gaps (C13_deployed_is_shared_on_class, C13_comment_attach_file_deployed); for files of file_class_long (gaps of white space, LF/CRLF, `--text` and closed long-bracket comments, no two blocks under one line) the demand spec_attach(file_blocks) - a long-bracket comment is a block of its own and counts as documentation - is stated from the bytes (C13_comment_attach_long_full) and decided by correspondence (leg c13.hover), not yet by proof; 'the trailing comment on its line' is read as the line of the declaration's identifier (a comment behind a multi-line initialiser is not the declaration's)",
+                                           "the hover model of the driver (hover_with_v) follows, for a function, the last link of the server's chain of definitions: the function expression, whose comment is looked up on the line of `end` (class inherited_doc); C13_hover_file is proved for hover_with (without that link), C13_hover_file_v_full is stated only",
+                                           "the spec column of leg c13.hover: for a file of file_class the documentation demanded is spec_comment on the declarative table of the file's comment lines (file_table), the statement of C13_comment_attach_file; for a file of file_class_long spec_attach on file_blocks (blocks computed from the bytes; long-bracket comments count); otherwise spec_attach on the recorded entries, stated only for files whose comments are all `--` line comments"])
